@@ -142,6 +142,30 @@ func (w *c39World) classify(nd *vNode, d *vDatagram) (s, typ string, ok bool) {
 	case h.Type == header.Message && h.Subtype == header.MessageRelay:
 		if li, found := st.RelayIndexes[h.RemoteIndex]; found {
 			if t, ok2 := st.Tunnels[li]; ok2 {
+				// a relayed packet that ENDS here (terminal record) carries an inner packet of the far endpoint: its header is
+				// clear text; when it names a tunnel this node holds, what it does is attributed to that tunnel's peer
+				// (authenticated by the endpoints' own key), exactly as for a direct datagram
+				terminal := false
+				for _, r := range t.RelayFor {
+					if r.LocalIndex == h.RemoteIndex && r.Type == nebula.TerminalType {
+						terminal = true
+					}
+				}
+				if terminal && len(d.Data) >= 2*header.Len+16 {
+					var ih header.H
+					if err := ih.Parse(d.Data[header.Len:]); err == nil && ih.Type != header.Handshake && ih.Type != header.RecvError {
+						if it, ok3 := st.Tunnels[ih.RemoteIndex]; ok3 {
+							switch ih.Type {
+							case header.Control:
+								return it.CertName, "control", true
+							case header.CloseTunnel:
+								return "", "", false // a close is a tunnel loss: logged as Local
+							default:
+								return t.CertName, "relay", true
+							}
+						}
+					}
+				}
 				return t.CertName, "relay", true
 			}
 		}
@@ -258,12 +282,12 @@ func c39Drive(w *c39World, rnd *rand.Rand, steps, tr int, res *vResult) {
 		if len(w.idx) == 0 || rnd.Intn(4) == 0 {
 			return uint32(1000 + rnd.Intn(5))
 		}
-		k := rnd.Intn(len(w.idx))
-		for real := range w.idx {
-			if k == 0 {
+		// in order of first sight (map iteration order would make the schedule differ from run to run)
+		k := 1 + rnd.Intn(len(w.idx))
+		for real, name := range w.idx {
+			if name == k {
 				return real
 			}
-			k--
 		}
 		return 7
 	}
@@ -330,6 +354,60 @@ func c39Drive(w *c39World, rnd *rand.Rand, steps, tr int, res *vResult) {
 			}
 		}
 	}
+	if tr%4 == 3 {
+		// the hostile peer answers in the target's place: the relay's leg towards T is still "requested" (its request to T is
+		// held back), M - authenticated, but not part of this relay - sends a CreateRelayResponse that names that leg's index
+		deliverExceptRtoT := func() {
+			for round := 0; round < 24; round++ {
+				batch := w.inflight
+				w.inflight = nil // what the deliveries provoke is collected here
+				var held []*vDatagram
+				for _, d := range batch {
+					if d.From == w.R.UDP && d.To == w.T.UDP && d.H.Type == header.Control {
+						held = append(held, d)
+						continue
+					}
+					w.deliver(d)
+				}
+				w.inflight = append(held, w.inflight...)
+				w.Advance(100 * time.Millisecond) // handshake attempts through a relay are made by the retry timer
+				for _, nd := range w.sorted() {
+					w.local(nd, "tick")
+				}
+			}
+		}
+		send(w.M, w.R.Vpn[0].Addr())
+		send(w.A, w.T.Vpn[0].Addr())
+		deliverExceptRtoT()
+		var leg uint32
+		for _, tn := range w.R.Ctrl.VerifProject().Tunnels {
+			if tn.CertName == "T" {
+				for _, r := range tn.RelayFor {
+					if r.State == nebula.Requested {
+						leg = r.LocalIndex
+					}
+				}
+			}
+		}
+		if leg == 0 {
+			res.Hit("hostile-response:no-requested-leg")
+			if os.Getenv("VERIF_DEBUG") != "" {
+				b, _ := json.Marshal(map[string]any{"R": w.R.Ctrl.VerifProject(), "A": w.A.Ctrl.VerifProject(), "inflight": len(w.inflight)})
+				res.Extra[fmt.Sprintf("noleg-%d", tr)] = string(b)
+			}
+		}
+		if leg != 0 {
+			payload := nebula.VerifControlResp(w.A.Vpn[0].Addr(), w.T.Vpn[0].Addr(), leg, 777)
+			if w.M.Ctrl.VerifSendOnTunnel(header.Control, 0, w.R.Vpn[0].Addr(), payload) {
+				synctest.Wait()
+				w.local(w.M, "hostile-send")
+				res.Hit("hostile-response-for-foreign-requested-leg")
+				deliverExceptRtoT()
+				send(w.A, w.T.Vpn[0].Addr())
+				deliverExceptRtoT()
+			}
+		}
+	}
 	reloadAt := -1
 	if tr%4 == 2 {
 		reloadAt = 25 + rnd.Intn(30) // the relay is reconfigured: relay.am_relay false (and back on later)
@@ -373,8 +451,10 @@ func c39Drive(w *c39World, rnd *rand.Rand, steps, tr int, res *vResult) {
 			}
 			setAmRelay(false)
 			send(w.A, w.T.Vpn[0].Addr())
-			rest := w.inflight[:0:0]
-			for _, d := range w.inflight {
+			batch := w.inflight
+			w.inflight = nil
+			var rest []*vDatagram
+			for _, d := range batch {
 				if d.To == w.R.UDP && d.H.Type == header.Message && d.H.Subtype == header.MessageRelay {
 					w.deliver(d)
 					res.Hit("relayed-datagram-while-am_relay-off")
@@ -382,7 +462,7 @@ func c39Drive(w *c39World, rnd *rand.Rand, steps, tr int, res *vResult) {
 					rest = append(rest, d)
 				}
 			}
-			w.inflight = append(rest, w.inflight[len(w.inflight):]...)
+			w.inflight = append(rest, w.inflight...)
 			continue
 		}
 		if reloadAt >= 0 && s == reloadAt+40 {
